@@ -48,6 +48,11 @@ HasPrefix(d, e) == Len(d.t) >= 1 /\ d.t[1] = e
 (*  ackw  [packet id -> "ok" | "err"]   acknowledgement written            *)
 (*  done  packet ids whose ack / timeout was processed on the source       *)
 (*  refd  packet ids refunded on their source chain                        *)
+(*  off   chains whose transfer parameter SendEnabled is false: every      *)
+(*        MsgTransfer there fails -- a user's transfer, the forward of a   *)
+(*        received packet (=> error acknowledgement, the receive is        *)
+(*        discarded) and the RETRY of a timed-out forward (=> the timeout  *)
+(*        transaction fails as a whole and can be submitted again later)   *)
 (* Accounts per chain: "user", "rcvr", "pfm" (the middleware's override    *)
 (* receiver), "esc:L" (escrow of link L), "mod" (transfer module).         *)
 (***************************************************************************)
@@ -131,9 +136,11 @@ Err(S, t) == [res |-> "err", S |-> [S EXCEPT !.now = t]]
 Alive(P, t) == P.exp = 0 \/ t < P.exp
 
 \* user transfer on chain a.c
+G_SendsEnabled(S, c) == c \notin S.off
+
 DoTransfer(S, a, t) ==
     LET d == a.d IN
-    IF ~(a.amt >= 1 /\ G_HasFunds(S, a.c, "user", d, a.amt)) THEN Err(S, t)
+    IF ~(a.amt >= 1 /\ G_SendsEnabled(S, a.c) /\ G_HasFunds(S, a.c, "user", d, a.amt)) THEN Err(S, t)
     ELSE Ok([Transfer(S, a.c, a.L, "user", d, a.amt, a.rcv, a.memo, IF a.exp = 0 THEN 0 ELSE t + a.exp) EXCEPT !.now = t])
 
 G_Receivable(S, P, t) == P \in S.pk /\ Id(P) \notin DOMAIN S.recv /\ Id(P) \notin S.done /\ Alive(P, t)
@@ -147,7 +154,7 @@ DoRecv(S, a, t) ==
          THEN IF P.rcv = "bad" \/ ~G_CanCredit(S, c, P.L, P.d, P.amt) THEN Ok(fail)
               ELSE Ok([RecvCoin(S0, c, P.L, P.rcv, P.d, P.amt) EXCEPT !.recv = (id :> "ok") @@ @, !.ackw = (id :> "ok") @@ @])
          ELSE LET h == Head(P.memo) IN
-              IF ~G_CanCredit(S, c, P.L, P.d, P.amt) \/ ~h.chok THEN Ok(fail)
+              IF ~G_CanCredit(S, c, P.L, P.d, P.amt) \/ ~h.chok \/ ~G_SendsEnabled(S, c) THEN Ok(fail)
               ELSE LET S1 == RecvCoin(S0, c, P.L, "pfm", P.d, P.amt)
                        S2 == Forward(S1, c, P, h, RecvDenom(c, P.L, P.d), h.ret, t)
                    IN Ok([S2 EXCEPT !.recv = (id :> "ok") @@ @])
@@ -183,6 +190,7 @@ DoTimeout(S, a, t) ==
                   Q  == PacketOf(S, Other(r.refL, c), r.refL, r.refSeq)
                   S1 == [S0 EXCEPT !.inf = @ \ rs] IN
               IF r.ret <= 0 THEN Ok(WriteAck(PFMRefund(S1, c, P, Q), Q, "err"))
+              ELSE IF ~G_SendsEnabled(S, c) THEN Err(S, t)     \* the retry cannot be sent: the whole transaction fails
               ELSE \* retry: ICS-20 refunds the middleware's account, which sends the same transfer again
                    LET S2 == RefundCoin(S1, P)
                        N  == NewPacket(S2, c, P.L, "pfm", P.d, P.amt, P.rcv, P.memo, t + r.to)
@@ -198,6 +206,7 @@ Step(S, a) ==
       [] a.a = "Timeout"  -> DoTimeout(S, a, t)
       [] a.a = "Block"    -> Ok([S EXCEPT !.now = t])
       [] a.a = "XImport"  -> Ok([S EXCEPT !.now = t])     \* genesis export + import on chain a.c: identity
+      [] a.a = "SetSend"  -> Ok([S EXCEPT !.now = t, !.off = IF a.on THEN @ \ {a.c} ELSE @ \cup {a.c}])   \* transfer MsgUpdateParams
 
 (***************************************************************************)
 (* Property C43 as state predicates                                        *)
@@ -229,13 +238,17 @@ I_Backed(S) == \A L \in Links : \A c \in {EndsOf(L)[1], EndsOf(L)[2]} : \A d \in
                            + SumAmtP({ P \in S.pk : P.src = c /\ P.L = L /\ P.d = d /\ Floating(S, P) })
                            + SumAmtP({ P \in S.pk : P.src = o /\ P.L = L /\ P.d = v /\ Floating(S, P) })
 
+\* IBC never changes the total supply of a native token (1000 of T<c> on its home chain <c>, none elsewhere)
+I_NativeSupply(S) == \A c \in Chains : \A h \in Chains :
+                        Sup(S, c, Native("T" \o h)) = IF c = h THEN 1000 ELSE 0
+
 \* the middleware's receive account and the transfer module account never keep funds
 I_NoIntermediateFunds(S) == \A k \in DOMAIN S.bal : k[2] \notin {"pfm", "mod"}
 
 \* an in-flight record exists exactly for a forwarded packet that is not finished
 I_InflightLive(S) == \A r \in S.inf : \E P \in S.pk : P.src = r.c /\ P.L = r.L /\ P.seq = r.seq /\ Id(P) \notin S.done
 
-AllInvariants(S) == I_Conserved(S) /\ I_Backed(S) /\ I_NoIntermediateFunds(S) /\ I_InflightLive(S)
+AllInvariants(S) == I_Conserved(S) /\ I_Backed(S) /\ I_NoIntermediateFunds(S) /\ I_InflightLive(S) /\ I_NativeSupply(S)
 
 Bank(S) == [bal |-> S.bal, sup |-> S.sup, inf |-> S.inf]
 
